@@ -148,6 +148,25 @@ def validate(path, source_unresolved=None, source_members=None):
         comp_ids = {c.identifier for c in pm.components}
         # every archive file's root objects should belong to a listed component file (checked via file listing above)
         _ = comp_ids
+    # -- data files (images): every DataReference names a listed data item, every Data/ file the library
+    #    added is listed, every listed data item with a file name has its file ---------------------
+    if len(meta) == 1:
+        pm = meta[0][1]
+        data_ids = {x.identifier for x in pm.datas}
+        data_files = {x.file_name for x in pm.datas if x.file_name}
+        used = set()
+        for _ident, (_n3, _ai3, msg) in objs.items():
+            if msg is not None:
+                used.update(pkg.walk_data_references(msg, []))
+        missing = sorted(used - data_ids)
+        if source_unresolved is not None and missing:
+            probs.append(("data-reference-unlisted", f"data reference(s) {missing[:5]} not in PackageMetadata.datas"))
+        for n in pk.names:
+            if n.startswith("Data/") and n not in pk.inherited and n[len("Data/"):] not in data_files:
+                probs.append(("data-file-not-listed-in-metadata", f"{n} is not named by any PackageMetadata.datas entry"))
+        for fn in sorted(data_files):
+            if f"Data/{fn}" not in pk.names and source_members is not None and f"Data/{fn}" in source_members:
+                probs.append(("data-file-missing", f"Data/{fn} is listed and was present in the source but is missing"))
     # -- references -----------------------------------------------------------------------------
     unresolved = pk.unresolved()
     if source_unresolved is not None:
